@@ -327,6 +327,11 @@ def shards(tier, seed):
                 out.append(Shard('receive2/%s/%s' % (r, name), h_receive(client, ids, True),
                                  expect=['applied']))
         out.append(Shard('receive/%s/empty' % r, h_receive_empty(client), expect=['applied']))
+        # the same id in two successive frames (known and unknown ids): the second event
+        # reports the first frame's value as the original one
+        for k in (UNKNOWN[1], UNKNOWN[2], K.MAX_CONCURRENT_STREAMS, K.INITIAL_WINDOW_SIZE):
+            out.append(Shard('receive2/%s/%s-twice' % (r, _name(k)),
+                             h_receive(client, [k, k], True), expect=['applied']))
         akeys = singles + pairs
         for ka in akeys:
             bs = KNOWN if tier == 'thorough' else [ka[0], K.INITIAL_WINDOW_SIZE,
